@@ -16,22 +16,10 @@
 
 VF_SECTION(w16, 16, 16, 120) {
   std::vector<int> operands = {0, 1, 2, 3, 7, 15, 0x7F, 0x80, 0xFF, 0x100, 0x7FFF, 0x8000, 0xFFFF, -1, -0x8000};
-  std::vector<int> shifts = {0, 1, 2, 3, 7, 8, 15};
-  if (r.thorough()) {
-    // every int operand 2^k-1, 2^k, 2^k+1 and its negative (k = 0..32), every shift count below the width
-    for (int k = 0; k <= 32; k++)
-      for (int dlt = -1; dlt <= 1; dlt++) {
-        uint32_t u = (k < 32 ? (1u << k) : 0u) + static_cast<uint32_t>(dlt);
-        for (uint32_t x : {u, 0u - u}) {
-          int v = static_cast<int>(x);
-          bool seen = false;
-          for (int y : operands) seen = seen || y == v;
-          if (!seen) operands.push_back(v);
-        }
-      }
-    shifts.clear();
-    for (int c = 0; c < 16; c++) shifts.push_back(c);
-  }
+  // every count the native operator defines: the 16-bit left operand is promoted to int, so 0..31
+  // (counts 16..31 shift everything out: 0 for unsigned, 0 / -1 for signed)
+  std::vector<int> shifts = all_shift_counts_of<uint16_t>();
+  if (r.thorough()) add_pow2_ints(operands);  // every int operand 2^k-1, 2^k, 2^k+1 and its negative (k = 0..32)
   std::vector<uint64_t> all;
   for (uint32_t v = 0; v < 0x10000; v++) all.push_back(v);
 #define X(W, T, O)                                                            \
@@ -42,14 +30,14 @@ VF_SECTION(w16, 16, 16, 120) {
   C03_W16(X)
 #undef X
   r.bound = r.thorough()
-      ? vf::fmt("6 wrapper types (le/be/re x u16/s16) x all 65536 stored values x {ctor,=,store} + 8 compound operators x %zu int operands (the quick set plus every 2^k-1, 2^k, 2^k+1 and negative, k = 0..32) + 2 shifts x all 16 counts + 4 inc/dec", operands.size())
-      : "6 wrapper types (le/be/re x u16/s16) x all 65536 stored values x {ctor,=,store} + 8 compound operators x 15 int operands + 2 shifts x 7 counts + 4 inc/dec";
+      ? vf::fmt("6 wrapper types (le/be/re x u16/s16) x all 65536 stored values x {ctor,=,store} + 8 compound operators x %zu int operands (the quick set plus every 2^k-1, 2^k, 2^k+1 and negative, k = 0..32) + 2 shifts x all 32 counts 0..31 (promoted width) + 4 inc/dec", operands.size())
+      : "6 wrapper types (le/be/re x u16/s16) x all 65536 stored values x {ctor,=,store} + 8 compound operators x 15 int operands + 2 shifts x all 32 counts 0..31 (every count defined for the promoted operand) + 4 inc/dec";
 }
 
 // 32-bit wrappers: lane set L9^4 + walking bits + all-distinct, operands of the exposed type.
 
 VF_SECTION(w32, 16, 16, 120) {
-  std::vector<int> shifts = {0, 1, 2, 3, 7, 8, 15, 16, 24, 31};
+  std::vector<int> shifts = all_shift_counts_of<uint32_t>();  // 0..31
   auto bits = lane_set(L9, 9, 4);
 #define X(W, T, O)                                                                    \
   {                                                                                   \
@@ -58,13 +46,13 @@ VF_SECTION(w32, 16, 16, 120) {
   }
   C03_W32(X)
 #undef X
-  r.bound = "6 wrapper types x (L9^4 = 6561 lane values + 64 walking-bit + 2 all-distinct) x {ctor,=,store} + 8 compound operators x 17 operands + 2 shifts x 10 counts + 4 inc/dec; signed pairs with undefined native result not compared";
+  r.bound = "6 wrapper types x (L9^4 = 6561 lane values + 64 walking-bit + 2 all-distinct) x {ctor,=,store} + 8 compound operators x 17 operands + 2 shifts x all 32 counts + 4 inc/dec; signed pairs with undefined native result not compared";
 }
 
 // 64-bit wrappers: L5^8 + walking bits + all-distinct.
 
 VF_SECTION(w64, 16, 16, 120) {
-  std::vector<int> shifts = {0, 1, 7, 8, 31, 32, 33, 56, 63};
+  std::vector<int> shifts = all_shift_counts_of<uint64_t>();  // 0..63
   auto bits = lane_set(L5, 5, 8);
   // binary operators: quick uses the L5 lanes in the four outer-most/inner-most bytes only
   // (L5^4 spread over bytes 0,3,4,7) + walking + all-distinct; thorough uses the full L5^8 set.
@@ -89,8 +77,8 @@ VF_SECTION(w64, 16, 16, 120) {
   C03_W64(X)
 #undef X
   r.bound = r.thorough()
-      ? "6 wrapper types x (L5^8 = 390625 lane values + 128 walking-bit + 2 all-distinct) x {ctor,=,store}, 8 compound operators x 21 operands, 2 shifts x 9 counts, 4 inc/dec"
-      : "6 wrapper types x {ctor,=,store} on L5^8 + walking + all-distinct (390755 values); compound/shift/inc/dec on 625 lane values (L5 in bytes 0,3,4,7) + 128 walking-bit + 2 all-distinct x 21 operands / 9 shift counts";
+      ? "6 wrapper types x (L5^8 = 390625 lane values + 128 walking-bit + 2 all-distinct) x {ctor,=,store}, 8 compound operators x 21 operands, 2 shifts x all 64 counts, 4 inc/dec"
+      : "6 wrapper types x {ctor,=,store} on L5^8 + walking + all-distinct (390755 values); compound/shift/inc/dec on 625 lane values (L5 in bytes 0,3,4,7) + 128 walking-bit + 2 all-distinct x 21 operands / all 64 shift counts";
 }
 
 // float / double wrappers (bit-exact).
